@@ -90,3 +90,24 @@ package faucetsc
 //@   ensures result1 == nil ==> gn.Used == old(gn.Used) + asked(t, gn) && gn.Used <= gn.GlobalLimit
 //@   ensures result1 == nil ==> $saved[globalNodeKey] == obj(gn)
 //@   ensures result1 != nil ==> $ntr <= old($ntr) + 1
+
+// ---------------------------------------------------------------- governance: update-settings (C48)
+// The faucet's global node is written back by update-settings only for the owner recorded in it
+// BEFORE the changes are applied, only after every change was applied without error, and only in a
+// state that passed GlobalNode.validate() after the last change. ($cfgValid: chain/state contracts.)
+//@ func (*GlobalNode).updateConfig
+//@   trusted
+//@   modifies gn.$all, $cfgValid
+//@   ensures !$cfgValid[obj(gn)]
+//@   ensures forall o int :: o != obj(gn) ==> $cfgValid[o] == old($cfgValid[o])
+//@ func (*GlobalNode).validate
+//@   trusted
+//@   modifies $cfgValid
+//@   ensures $cfgValid[obj(gn)] == (result == nil)
+//@   ensures forall o int :: o != obj(gn) ==> $cfgValid[o] == old($cfgValid[o])
+//@ func (*FaucetSmartContract).updateSettings
+//@   prop C48
+//@   requires t != nil && balances != nil && gn != nil && gn.FaucetConfig != nil
+//@   at-call updateConfig assert[owner-only] gn.FaucetConfig.OwnerId == t.ClientID
+//@   at-call InsertTrieNode assert[validated-when-saved] obj($arg2) == obj(gn) && $cfgValid[obj(gn)]
+//@   ensures[rejected-change-saves-nothing] result1 != nil ==> $nsaved == old($nsaved)
